@@ -195,9 +195,10 @@ func (g *ground) concretise(a abstractBlock, rng *rand.Rand, tag string) (*types
 	}
 	switch a.f["prop"] {
 	case "validator":
-		for k := 0; k < g.n; k++ {
-			if !bytes.Equal(g.addrs[k], g.proposer) {
-				h.ProposerAddress = append([]byte(nil), g.addrs[k]...)
+		// another member of the validator set of THIS height
+		for _, v := range st.Validators.Validators {
+			if !bytes.Equal(v.Address, g.proposer) {
+				h.ProposerAddress = append([]byte(nil), v.Address...)
 				if pick(2) == 0 {
 					break
 				}
